@@ -520,12 +520,29 @@ func zzC13YExportsList(e *zzC13YEnv, v int) {
 		}
 		return false
 	}
+	// the (:export ...) option of the form Package.LoadForm writes
+	loadForm := func(name string) bool {
+		form, _ := pa.LoadForm().(slip.List)
+		for _, o := range form {
+			if l, ok := o.(slip.List); ok && 0 < len(l) && l[0] == slip.Symbol(":export") {
+				for _, n := range l[1:] {
+					if n == slip.Symbol(name) {
+						return true
+					}
+				}
+			}
+		}
+		return false
+	}
 	zzC13YCheck(0, listed("v") == 1 && listed("u") == 1 && described("v") && described("u"), "Exports after export")
+	zzC13YCheck(0, loadForm("v") && loadForm("u"), "LoadForm after export")
 	switch v {
 	case 0:
 		e.run(`(unexport 'v)`)
 		zzC13YCheck(9, listed("v") == 0, "Package.Exports still lists an unexported name")
 		zzC13YCheck(9, !described("v"), "describe still lists an unexported name under Exports")
+		zzC13YCheck(9, !loadForm("v"), "LoadForm still writes an unexported name into (:export ...)")
+		zzC13YCheck(0, loadForm("u"), "LoadForm lost an exported name")
 		zzC13YCheck(0, listed("u") == 1 && described("u"), "unexport removed another name from Exports")
 	case 1:
 		e.run(`(export 'v) (export 'v)`)
